@@ -22,6 +22,7 @@ proposals are listed): tied by correspondence only.
 import OnosVerif.Proofs.V2SkelProp
 import OnosVerif.Proofs.V2SkelCfg
 import OnosVerif.Proofs.V2SkelTx
+import OnosVerif.Proofs.V2SkelSource
 
 namespace OnosVerif.Props.V2Skel
 open OnosVerif.Generated OnosVerif.V2 OnosVerif.V2.Skel
@@ -207,6 +208,48 @@ theorem V2_skel_tx_updateStatus (g : V2G) :
             !(g.b "errors.IsNotFound(err)@r.transactions.UpdateStatus#1") &&
             !(g.b "errors.IsConflict(err)@r.transactions.UpdateStatus#1") then [.ret "err" []] else [.ret "nil" []]) :=
   skel_tx_updateStatus g
+
+/-! ### statements about the regenerated functions themselves (no twin in the statement): what must
+    hold of the state for the Go code, as the translator reads it now, to reach a given write
+    (C02: merge guard; C04/C10: request and SYNCHRONIZED guards; C02/C04/C11: abort cursors) -/
+
+/-- reconcileApply reaches its southbound request only if: the change is not yet applied, its
+    predecessor on the target is (or it has none), the configuration is not SYNCHRONIZING, the applied
+    term is not behind the mastership term, a master is recorded, its relation exists and its
+    connection is up. -/
+theorem V2_source_apply_set_guard (s : Sys) (p : Proposal) (env : Env) (o : Option Proposal) (c : Cfg)
+    (hph : p.apply = .opened) (hc : s.cfg? p.target = some c)
+    (h : Tok.write "conn.Set" ∈ v2sk_prop_apply (gProp s p o env)) :
+    c.applied < p.index ∧ (p.prev = 0 ∨ c.applied = p.prev) ∧ c.state ≠ .synchronizing ∧
+      ¬ c.appliedTerm < c.term ∧ c.master ≠ 0 ∧ ∃ rel, s.rel? c.master = some rel ∧ rel.conn = true :=
+  source_apply_set_guard s p env o c hph hc h
+
+/-- reconcileCommit merges (`configurations.Update`) only for a COMMITTING proposal whose
+    predecessor is the last one merged: `Committed.Index = PrevIndex` -/
+theorem V2_source_commit_merge_guard (s : Sys) (p : Proposal) (env : Env) (o : Option Proposal) (c : Cfg)
+    (hph : p.commit ≠ .none) (hc : s.cfg? p.target = some c)
+    (h : Tok.write "r.configurations.Update" ∈ v2sk_prop_commit (gProp s p o env)) :
+    p.commit = .opened ∧ c.committed = p.prev :=
+  source_commit_merge_guard s p env o c hph hc h
+
+/-- reconcileAbort moves a cursor of the configuration only from exactly the proposal's predecessor:
+    `Committed.Index` is assigned only if it equals `PrevIndex`, `Applied.Index` only if it equals
+    `PrevIndex` (and then the committed cursor is at the predecessor too, or already past the proposal) -/
+theorem V2_source_abort_cursor_guard (s : Sys) (p : Proposal) (env : Env) (o : Option Proposal) (c : Cfg)
+    (hph : p.abort ≠ .none) (hc : s.cfg? p.target = some c) :
+    (Tok.setN "config.Status.Committed.Index" p.index ∈ v2sk_prop_abort (gProp s p o env) → c.committed = p.prev) ∧
+    (Tok.setN "config.Status.Applied.Index" p.index ∈ v2sk_prop_abort (gProp s p o env) →
+      c.applied = p.prev ∧ (c.committed = p.prev ∨ c.committed ≥ p.index)) :=
+  source_abort_cursor_guard s p env o c hph hc
+
+/-- reconcileConfiguration reports SYNCHRONIZED only from SYNCHRONIZING with a master recorded, and
+    then only if nothing was ever applied or the re-synchronisation request was accepted over the
+    master's live connection -/
+theorem V2_source_cfg_synced_guard (c : Cfg) (rel : Option Rel) (env : Env) (setFails : Bool)
+    (h : Tok.setN "config.Status.State" 2 ∈ v2sk_cfg_reconcile (gCfgOf c rel env setFails)) :
+    env.persistent = false ∧ c.state = .synchronizing ∧ c.master ≠ 0 ∧
+      (c.applied = 0 ∨ (setFails = false ∧ ∃ r, rel = some r ∧ r.conn = true)) :=
+  source_cfg_synced_guard c rel env setFails h
 
 /-! non-vacuity: a concrete state in which the abort skeleton takes its first branch, with the
     trace written out -/
